@@ -94,6 +94,25 @@ pub fn load(text: &str, supplied: &[Sig]) -> Loaded {
     }
 }
 
+/// the reason of a runtime error in the specification's vocabulary (from the error's Debug text)
+pub fn runtime_why(dbg: &str) -> &'static str {
+    for (variant, why) in [
+        ("DivisionByZero", "div0"),
+        ("UnassignedVariable", "unbound"),
+        ("UnexpectedValueForSignal", "signal"),
+        ("EmptyRandomRange", "range"),
+        ("FunctionNotImplemented", "unimpl"),
+        ("WrongNumberOfOutputs", "count"),
+        ("WrongOutputOrder", "order"),
+        ("MissingOutputs", "missing"),
+    ] {
+        if dbg.contains(variant) {
+            return why;
+        }
+    }
+    "other"
+}
+
 /// which check of the binder refused the test (from the error's Debug text); "" if it was not a bind error
 pub fn load_class(msg: &str) -> &'static str {
     if !msg.starts_with("bind_err") {
@@ -248,12 +267,12 @@ pub fn iterate_pub<D: TestDriver<Error = DrvErr>>(
             Ok(Some(Err(IterationError::Driver(DrvErr(id))))) => {
                 nerrs += 1;
                 stop = nerrs >= 3;
-                json!({"k":"err","class":"driver","id":id})
+                json!({"k":"err","class":"driver","id":id,"why":"driver"})
             }
             Ok(Some(Err(IterationError::Runtime(e)))) => {
                 nerrs += 1;
                 stop = nerrs >= 3;
-                json!({"k":"err","class":"runtime","id":0,"msg":format!("{e}")})
+                json!({"k":"err","class":"runtime","id":0,"msg":format!("{e}"),"why":runtime_why(&format!("{e:?}"))})
             }
             Ok(Some(Ok(row))) => row_to_spec(row),
         };
